@@ -1020,9 +1020,12 @@ namespace avel {
         vec8x32i arg_exponent{_mm256_srli_epi32(exponent_field, 23)};
 
         // Perform two multiplications such that they should never lead to lossy rounding
-        vec8x32i lower_bound0{vec8x32i{1} - arg_exponent};
+        // Both halves of the extracted magnitude must remain representable as normal powers of two
+        vec8x32i lower_bound0{max(vec8x32i{1} - arg_exponent, vec8x32i{-252})};
         vec8x32i upper_bound0{vec8x32i{254} - arg_exponent};
 
+        // Exponents beyond this range all produce the same result. Clamping keeps the subtraction below from overflowing
+        exp = clamp(exp, vec8x32i{-512}, vec8x32i{+512});
         vec8x32i extracted_magnitude = clamp(exp, lower_bound0, upper_bound0);
         exp -= extracted_magnitude;
 
